@@ -1346,29 +1346,34 @@ fn tail_call_pass() -> Result<(u64, Vec<(Vec<String>, String, String)>), String>
         .par_iter()
         .map(|(a, b)| {
             crate::sim::system::install_panic_recorder();
-            let run = |with_tail: bool| -> Result<(Obs, Option<Snap>, Obs), String> {
+            // the tail-call line entered `tails` times in a row (0 = the control session)
+            let run = |tails: usize| -> Result<(Obs, Option<Snap>, Vec<Obs>), String> {
                 let mut s = Sess::new()?;
                 s.eval(a);
                 s.eval(TAIL_DEF);
-                let t = if with_tail { s.eval(TAIL_LINE) } else { Obs::NoCode };
+                let t: Vec<Obs> = (0..tails).map(|_| s.eval(TAIL_LINE)).collect();
                 let o = s.eval(b);
                 let snap = s.snapshot().ok();
                 s.close();
                 Ok((o, snap, t))
             };
-            let (o1, s1, t) = run(true)?;
-            let (o0, s0, _) = run(false)?;
-            let hist = vec![a.to_string(), TAIL_DEF.to_string(), TAIL_LINE.to_string(), b.to_string()];
-            if t != Obs::Value("9".into()) {
-                return Ok(Some((hist, format!("the tail-call line yields {}", t.show()), "9".into())));
-            }
+            let (o0, s0, _) = run(0)?;
             let vars = |s: &Option<Snap>| s.as_ref().map(|s| format!("{:?}", s.vars)).unwrap_or_else(|| "<unreadable>".into());
-            if o1 != o0 || vars(&s1) != vars(&s0) {
-                return Ok(Some((
-                    hist,
-                    format!("last line yields {}, variables {}", o1.show(), vars(&s1)),
-                    format!("{} and {} (the same session without the tail-call line)", o0.show(), vars(&s0)),
-                )));
+            for tails in [1usize, 2] {
+                let (o1, s1, t) = run(tails)?;
+                let mut hist = vec![a.to_string(), TAIL_DEF.to_string()];
+                hist.extend((0..tails).map(|_| TAIL_LINE.to_string()));
+                hist.push(b.to_string());
+                if let Some(bad) = t.iter().find(|t| **t != Obs::Value("9".into())) {
+                    return Ok(Some((hist, format!("a tail-call line yields {}", bad.show()), "9".into())));
+                }
+                if o1 != o0 || vars(&s1) != vars(&s0) {
+                    return Ok(Some((
+                        hist,
+                        format!("last line yields {}, variables {}", o1.show(), vars(&s1)),
+                        format!("{} and {} (the same session without the tail-call lines)", o0.show(), vars(&s0)),
+                    )));
+                }
             }
             Ok(None)
         })
